@@ -286,6 +286,24 @@ def canonicalise(tree: ast.AST) -> None:
             r_ = node.comparators[0]
             if isinstance(r_, ast.Call) and isinstance(r_.func, ast.Name) and r_.func.id == "type" and len(r_.args) == 1 and not (isinstance(node.left, ast.Call) and isinstance(node.left.func, ast.Name) and node.left.func.id == "type"):
                 node.left, node.comparators[0] = r_, node.left
+    # for k in D: v = D[k]; ..   ->   for k, v in D.items(): ..     (D a name / attribute chain not assigned in the body)
+    for node in ast.walk(tree):
+        if isinstance(node, ast.For) and isinstance(node.target, ast.Name) and isinstance(node.iter, (ast.Name, ast.Attribute)) and len(node.body) >= 2:
+            first = node.body[0]
+            if isinstance(first, ast.Assign) and len(first.targets) == 1 and isinstance(first.targets[0], ast.Name) and isinstance(first.value, ast.Subscript) \
+                    and ast.dump(first.value.value) == ast.dump(node.iter) and isinstance(first.value.slice, ast.Name) and first.value.slice.id == node.target.id and first.targets[0].id != node.target.id:
+                vname = first.targets[0].id
+                rest = node.body[1:]
+                root_ = node.iter
+                while isinstance(root_, ast.Attribute):
+                    root_ = root_.value
+                # (re-binding v or k later in the body is the same in both forms; re-binding D is not)
+                rebinding = isinstance(root_, ast.Name) and any(isinstance(x, ast.Name) and isinstance(x.ctx, ast.Store) and x.id == root_.id for s_ in rest for x in ast.walk(s_))
+                if not rebinding:
+                    node.target = ast.copy_location(ast.Tuple(elts=[ast.Name(id=node.target.id, ctx=ast.Store()), ast.Name(id=vname, ctx=ast.Store())], ctx=ast.Store()), node.target)
+                    node.iter = ast.copy_location(ast.Call(func=ast.Attribute(value=node.iter, attr="items", ctx=ast.Load()), args=[], keywords=[]), node.iter)
+                    node.body = rest
+                    ast.fix_missing_locations(node)
     # a temporary that only names the condition of the if-statement that follows, or the value of the return
     # that follows, is read through:   c = COND; if c: ..  ->  if COND: ..      r = f(x); return r  ->  return f(x)
     for fn_ in ast.walk(tree):
@@ -350,20 +368,6 @@ def canonicalise(tree: ast.AST) -> None:
             elif not lc and not rc and op in (ast.Eq, ast.NotEq) and _selector(l_) and _selector(r_) and _order_key(l_) > _order_key(r_):
                 # a == b and b == a are one spelling: operands in a fixed (textual) order
                 node.left, node.comparators[0] = r_, l_
-    # for k in D: v = D[k]; ..   ->   for k, v in D.items(): ..     (D a name / attribute chain not assigned in the body)
-    for node in ast.walk(tree):
-        if isinstance(node, ast.For) and isinstance(node.target, ast.Name) and isinstance(node.iter, (ast.Name, ast.Attribute)) and len(node.body) >= 2:
-            first = node.body[0]
-            if isinstance(first, ast.Assign) and len(first.targets) == 1 and isinstance(first.targets[0], ast.Name) and isinstance(first.value, ast.Subscript) \
-                    and ast.dump(first.value.value) == ast.dump(node.iter) and isinstance(first.value.slice, ast.Name) and first.value.slice.id == node.target.id and first.targets[0].id != node.target.id:
-                vname = first.targets[0].id
-                rest = node.body[1:]
-                rebinding = any(isinstance(x, ast.Name) and isinstance(x.ctx, ast.Store) and x.id in (vname, node.target.id) for s_ in rest for x in ast.walk(s_))
-                if not rebinding:
-                    node.target = ast.copy_location(ast.Tuple(elts=[ast.Name(id=node.target.id, ctx=ast.Store()), ast.Name(id=vname, ctx=ast.Store())], ctx=ast.Store()), node.target)
-                    node.iter = ast.copy_location(ast.Call(func=ast.Attribute(value=node.iter, attr="items", ctx=ast.Load()), args=[], keywords=[]), node.iter)
-                    node.body = rest
-                    ast.fix_missing_locations(node)
     # for k, v in d.items() with an unused k (v)  ->  for v in d.values()  (for k in d)
     for fn_ in ast.walk(tree):
         if not isinstance(fn_, (ast.FunctionDef, ast.AsyncFunctionDef)):
